@@ -196,6 +196,29 @@ func (c *vCloser) Close() error {
 	return nil
 }
 
+// a closer that contains another registered closer as its first field: &pool and
+// &pool.Primary are the same address but two different closers
+type vPool struct {
+	Primary vCloser
+	calls   int
+	done    bool
+}
+
+func (p *vPool) Close() error {
+	p.calls++
+	p.done = true
+	return nil
+}
+
+// stateless closers: every zero-sized object may live at one address
+type vZC1 struct{}
+type vZC2 struct{}
+
+var vZCalls [2]int
+
+func (c *vZC1) Close() error { vZCalls[0]++; return nil }
+func (c *vZC2) Close() error { vZCalls[1]++; return nil }
+
 func VerifC14() {
 	n := nd.Choose(nd.Param("N", 3) + 1)
 	var cs []*vCloser
@@ -205,16 +228,38 @@ func VerifC14() {
 		cs = append(cs, c)
 		s.CloserComponents = append(s.CloserComponents, c)
 	}
+	// optionally: closers that share an address with another registered closer
+	shape := 0
+	if n <= 2 { // keeps the number of goroutines (and schedules) bounded
+		shape = nd.Choose(nd.Param("SHAPES", 3))
+	}
+	var pool *vPool
+	vZCalls = [2]int{}
+	switch shape {
+	case 1:
+		pool = &vPool{}
+		s.CloserComponents = append(s.CloserComponents, pool, &pool.Primary)
+		nd.Cover("closer embedded in another closer")
+	case 2:
+		s.CloserComponents = append(s.CloserComponents, &vZC1{}, &vZC2{})
+		nd.Cover("stateless closers")
+	}
 	s.Close()
 	// the instant Close returns:
 	for _, c := range cs {
 		nd.Assert(c.calls == 1, "C14: every closer is invoked exactly once by the time Close returns")
 		nd.Assert(c.returned, "C14: Close returns only after every closer's Close has returned")
 	}
+	if pool != nil {
+		nd.Assert(pool.calls == 1 && pool.done && pool.Primary.calls == 1 && pool.Primary.returned, "C14: every closer is invoked exactly once by the time Close returns")
+	}
+	if shape == 2 {
+		nd.Assert(vZCalls[0] == 1 && vZCalls[1] == 1, "C14: every closer is invoked exactly once by the time Close returns")
+	}
 	if n > 1 {
 		nd.Cover("several closers")
 	}
-	if n == 0 {
+	if n == 0 && shape == 0 {
 		nd.Cover("no closer")
 	}
 }
